@@ -1,6 +1,7 @@
 package yubiagent
 
 //vsym:pkg github.com/theparanoids/ysshra/agent/yubiagent
+//vsym:include yubiagent/ctor.go || yubiagent/ctor_bb.go
 //vsym:entry H20_serve_wait
 //vsym:entry H20_serve_broadcast
 //vsym:entry H20_serve_pipelined
@@ -89,7 +90,7 @@ func h20Server() *server {
 	if err != nil {
 		panic(errors.New("model: construction failed"))
 	}
-	return &server{ShimAgent: shim, remote: true}
+	return ygNewServer(shim, "", true)
 }
 
 const s20Broadcast = "Lock#1;CondBroadcast#2;Unlock#1;"
@@ -170,7 +171,7 @@ func H20_serve_pipelined() {
 func H20_client_wait() {
 	code := vNondetU8("code")
 	conn := &m20NetConn{in: []byte("\x00\x00\x00\x07SUCCESS")}
-	cl := &client{conn: conn}
+	cl := ygNewClient(conn)
 	err := cl.Wait(code)
 	vAssert(err == nil, "C20.client-wait-ok")
 	vAssert(len(conn.out) == 6 && conn.out[0] == 0 && conn.out[1] == 0 && conn.out[2] == 0 && conn.out[3] == 2 && conn.out[4] == AgentMessageWait && conn.out[5] == code,
